@@ -93,10 +93,12 @@ func goMapDefineOwnProperty(obj *object, name string, descriptor property, throw
 	if descriptor.mode != 0o111 {
 		return obj.runtime.typeErrorResult(throw)
 	}
-	if !descriptor.isDataDescriptor() {
+	value, isValue := descriptor.value.(Value)
+	if !isValue || !descriptor.isDataDescriptor() {
+		// An accessor descriptor, or a descriptor without a value.
 		return obj.runtime.typeErrorResult(throw)
 	}
-	goObj.value.SetMapIndex(goObj.toKey(name), goObj.toValue(descriptor.value.(Value)))
+	goObj.value.SetMapIndex(goObj.toKey(name), goObj.toValue(value))
 	return true
 }
 
